@@ -10,10 +10,11 @@ pub fn run(old_path: &str, new_path: &str) {
     let mut ops = Vec::new();
     for op in diff.ops() {
         match *op {
-            DiffOp::Equal { len, .. } => ops.push(format!("E{}", len)),
-            DiffOp::Delete { old_len, .. } => ops.push(format!("D{}", old_len)),
-            DiffOp::Insert { new_len, .. } => ops.push(format!("I{}", new_len)),
-            DiffOp::Replace { old_len, new_len, .. } => ops.push(format!("R{}.{}", old_len, new_len)),
+            // with the auxiliary indices as `similar` reports them (they can be stale after its compaction pass)
+            DiffOp::Equal { len, old_index, new_index } => ops.push(format!("E{}@{}:{}", len, old_index, new_index)),
+            DiffOp::Delete { old_len, old_index, new_index } => ops.push(format!("D{}@{}:{}", old_len, old_index, new_index)),
+            DiffOp::Insert { new_len, old_index, new_index } => ops.push(format!("I{}@{}:{}", new_len, old_index, new_index)),
+            DiffOp::Replace { old_len, new_len, old_index, new_index } => ops.push(format!("R{}.{}@{}:{}", old_len, new_len, old_index, new_index)),
         }
     }
     let mut ids: HashMap<&str, usize> = HashMap::new();
